@@ -1,25 +1,30 @@
 #!/usr/bin/env python3
 """Runs every registered check against every seeded change (applied to /repo and undone straight afterwards) and writes
-seeded/MATRIX.md + the detected_by field of each seeded/<id>/meta.json.   usage: seeded_matrix.py [id-substring ...]"""
+seeded/MATRIX.md + the detected_by field of each seeded/<id>/meta.json.   usage: seeded_matrix.py [--scratch] [id-substring ...]
+With --scratch the change is applied to a scratch copy of /repo's HEAD instead (checks pointed at it through MINA_REPO), so
+/repo is never touched and the run can go on in the background."""
 import glob
 import json
 import os
+import shutil
 import subprocess
 import sys
+import tempfile
 
 VERIF = os.path.dirname(os.path.dirname(os.path.abspath(__file__)))
 PROPS = ["C%02d" % i for i in range(1, 21)]
 
 
-def sh(cmd, cwd=None):
-    p = subprocess.run(cmd, cwd=cwd, stdout=subprocess.PIPE, stderr=subprocess.STDOUT, text=True, shell=True)
+def sh(cmd, cwd=None, env=None):
+    p = subprocess.run(cmd, cwd=cwd, env=env, stdout=subprocess.PIPE, stderr=subprocess.STDOUT, text=True, shell=True)
     return p.returncode, p.stdout
 
 
 def main():
-    filt = sys.argv[1:]
+    scratch = "--scratch" in sys.argv
+    filt = [a for a in sys.argv[1:] if not a.startswith("--")]
     rc, out = sh("git -C /repo status --porcelain --untracked-files=no")
-    if out.strip():
+    if out.strip() and not scratch:
         raise SystemExit("/repo has uncommitted changes")
     rows = []
     for d in sorted(glob.glob(os.path.join(VERIF, "seeded", "*"))):
@@ -28,19 +33,32 @@ def main():
         sid = os.path.basename(d)
         meta_p = os.path.join(d, "meta.json")
         meta = json.load(open(meta_p)) if os.path.exists(meta_p) else {"id": sid}
-        rc, out = sh("git -C /repo apply %s" % os.path.join(d, "patch.diff"))
+        env = dict(os.environ)
+        root = None
+        if scratch:
+            root = tempfile.mkdtemp(prefix="mina-seeded-")
+            rc, out = sh("git -C /repo archive HEAD | tar -x -C %s && cd %s && patch -p1 -s < %s"
+                         % (root, root, os.path.join(d, "patch.diff")))
+            env["MINA_REPO"] = root
+        else:
+            rc, out = sh("git -C /repo apply %s" % os.path.join(d, "patch.diff"))
         if rc != 0:
             print(sid, "patch does not apply:", out)
+            if root:
+                shutil.rmtree(root, ignore_errors=True)
             continue
         fired = {}
         try:
             for p in PROPS:
-                rc, out = sh("./verif check %s" % p, cwd=VERIF)
+                rc, out = sh("./verif check %s" % p, cwd=VERIF, env=env)
                 keys = [l.strip().split(": ")[0] for l in out.splitlines() if l.startswith("  C")]
                 if rc != 0:
                     fired[p] = keys[:3] or ["(exit %d)" % rc]
         finally:
-            sh("git -C /repo checkout -- .")
+            if root:
+                shutil.rmtree(root, ignore_errors=True)
+            else:
+                sh("git -C /repo checkout -- .")
         meta["detected_by"] = sorted(fired)
         meta["first_reports"] = {p: k for p, k in fired.items()}
         json.dump(meta, open(meta_p, "w"), indent=1)
